@@ -83,7 +83,7 @@ func TestC15Binary(t *testing.T) {
 		}
 		control := func(after string) {
 			log := p.log()
-			for _, bad := range []string{"panic:", "fatal error:", "WARNING: DATA RACE"} {
+			for _, bad := range []string{"panic:", "http: panic serving", "fatal error:", "WARNING: DATA RACE"} { // (net/http recovers a handler's panic and logs it: still a panic)
 				if i := strings.Index(log, bad); i >= 0 {
 					fail("after %s the pool binary reported %q:\n%.5000s", after, bad, log[i:])
 				}
@@ -99,7 +99,7 @@ func TestC15Binary(t *testing.T) {
 		nontrivial := false
 		n := rapid.IntRange(1, 6).Draw(rt, "frames")
 		for i := 0; i < n; i++ {
-			kind := rapid.SampledFrom([]string{"request", "request", "request", "raw", "burst", "big", "http"}).Draw(rt, "kind")
+			kind := rapid.SampledFrom([]string{"request", "request", "request", "raw", "burst", "big", "http", "httpdoc"}).Draw(rt, "kind")
 			kinds = append(kinds, kind)
 			if conn == nil || !healthy {
 				dial()
@@ -149,6 +149,12 @@ func TestC15Binary(t *testing.T) {
 				hist = append(hist, fmt.Sprintf("big frame of %d bytes", len(b)))
 				conn.WriteMessage(websocket.TextMessage, b)
 				healthy = false
+			case "httpdoc":
+				// a valid JSON document that is not a request (a stray reply, an empty object, a bare value, a batch):
+				// over HTTP it gets some answer or none, but it does not make the handler panic
+				doc := rapid.SampledFrom([]string{`{"id":7}`, `{}`, `null`, `[]`, `7`, `"x"`, `true`, `{"jsonrpc":"2.0","id":7,"result":1}`, `{"jsonrpc":"2.0","id":8,"error":{"code":1,"message":"m"}}`, `[{"jsonrpc":"2.0","id":1,"method":"vipnode_ping"}]`, `{"jsonrpc":"2.0"}`, `{"id":null}`, `{"params":[1]}`}).Draw(rt, "httpDoc")
+				hist = append(hist, "HTTP POST of a JSON document that is not a request: "+doc)
+				httpPostRaw(p.addr, []byte(doc))
 			case "http":
 				b, _ := genRawBytes(rt)
 				hist = append(hist, fmt.Sprintf("HTTP POST body: %.200q", b))
